@@ -83,9 +83,9 @@ Module GrpT.
   (* measure decrease of one action in the phase *)
   Ltac mgo :=
     match goal with I : Inv ?s, P : closed_ch ?s = true, H : step ?c ?s _ = Some _ |- _ =>
-      scbn H; unfold tick, toil, he_check, he_send, sync_checked in H;
+      scbn H; unfold tick, toil, he_check, he_send, sync_checked in H; rewrite ?P in H; scbn H;
       step_cases H; pair_cases; bool_hyps; pair_cases; bool_hyps;
-      match goal with I : Inv ?sx, P : closed_ch ?sx = true |- _ =>
+      match goal with I : Inv ?sx |- _ =>
         destr_inv I; pose_specs sx; pose proof (h_spec3 (hb sx));
         unf; rew_eqs sx; cbn in *; try discriminate;
         unfold mu; apply lt3_intro; unfold L1, L2, L3, sessP;
@@ -93,7 +93,121 @@ Module GrpT.
         cbn -[Nat.mul Nat.sub Nat.add]; rew_goal sx; cbn -[Nat.mul Nat.sub Nat.add];
         repeat match goal with |- context [b2n ?b] => is_var b; destruct b end;
         repeat match goal with |- context [b2n (seen_e ?x)] => destruct (seen_e x) end;
-        cbn -[Nat.mul Nat.sub Nat.add]; try lia
+        cbn -[Nat.mul Nat.sub Nat.add]; unfold sessP; try lia
       end
     end.
+
+  (* ---- progress: in the phase, a state in which nothing can move is final ---- *)
+  Lemma he_send_enabled c s : he_send c s HBuf <> None \/ he_send c s HDrop <> None.
+  Proof.
+    unfold he_send. destruct (len (errs s) <? ecap c) eqn:E.
+    - left. discriminate.
+    - right. apply Nat.ltb_ge in E. apply Nat.leb_le in E. rewrite E. discriminate.
+  Qed.
+
+  Ltac stuck_by Hs a := specialize (Hs a); scbn Hs.
+
+  Lemma stuck_final c s : Inv s -> Inv2 s -> closed_ch s = true -> stuck (step c) s -> final s.
+  Proof.
+    intros I J P Hs.
+    pose proof (he_send_enabled c s) as HE.
+    (* nobody is inside handleError *)
+    assert (A1 : fw_checked s = 0).
+    { destruct (fw_checked s) eqn:E; auto. exfalso. destruct HE as [HE|HE]; apply HE.
+      - pose proof (Hs (AFwSend HBuf)) as X. cbn -[he_send Nat.ltb Nat.leb Nat.eqb] in X. rewrite E in X. destruct (he_send c s HBuf); [discriminate|reflexivity].
+      - pose proof (Hs (AFwSend HDrop)) as X. cbn -[he_send Nat.ltb Nat.leb Nat.eqb] in X. rewrite E in X. destruct (he_send c s HDrop); [discriminate|reflexivity]. }
+    assert (A2 : n_he s = 0).
+    { destruct (n_he s) eqn:E; auto. exfalso. destruct HE as [HE|HE]; apply HE.
+      - pose proof (Hs (AGHe HBuf)) as X. cbn -[he_send Nat.ltb Nat.leb Nat.eqb] in X. rewrite E in X. destruct (he_send c s HBuf); [discriminate|reflexivity].
+      - pose proof (Hs (AGHe HDrop)) as X. cbn -[he_send Nat.ltb Nat.leb Nat.eqb] in X. rewrite E in X. destruct (he_send c s HDrop); [discriminate|reflexivity]. }
+    (* the consume goroutines are gone *)
+    assert (A3 : n_start s = 0).
+    { destruct (n_start s) eqn:E; auto. exfalso. pose proof (Hs AGStart) as X. scbn X. rewrite E in X.
+      destruct (ctx_done s || closed_ch s); discriminate. }
+    assert (A4 : n_new s = 0).
+    { destruct (n_new s) eqn:E; auto. exfalso. pose proof (Hs (AGNew true)) as X. scbn X. rewrite E in X. discriminate. }
+    assert (A5 : n_run s = 0).
+    { destruct (n_run s) eqn:E; auto. exfalso. pose proof (Hs (AGRunEnd false)) as X. scbn X. rewrite E in X. discriminate. }
+    assert (A6 : n_wait s = 0).
+    { destruct (n_wait s) eqn:E; auto. exfalso. pose proof (Hs AGWaitEnd) as X. scbn X. rewrite E in X. discriminate. }
+    assert (A7 : n_defer s = 0).
+    { destruct (n_defer s) eqn:E; auto. exfalso. pose proof (Hs AGDefer) as X. scbn X. rewrite E in X. discriminate. }
+    (* the partition-count loop is not running *)
+    assert (A8 : lc s = LcNone \/ lc s = LcDone).
+    { destruct (lc s) eqn:E; auto; exfalso.
+      - pose proof (Hs (ALNet true)) as X. scbn X. rewrite E in X. discriminate.
+      - pose proof (Hs ALStop) as X. scbn X. rewrite E, P in X. rewrite orb_true_r in X. discriminate.
+      - pose proof (Hs ALExit) as X. scbn X. rewrite E in X. discriminate. }
+    destr_inv I. destruct J as [J1 J2 J3 J4 J5]. pose_specs s. pose proof (c_spec3 (cc s)). pose proof (l_spec3 (lc s)).
+    unfold claims in *. rewrite A2, A3, A4, A5, A6, A7 in *.
+    (* the caller of Consume is back *)
+    assert (B : cc s = CIdle).
+    { destruct (cc s) eqn:E; auto; exfalso; cbn -[he_send] in *.
+      - (* CLock *) destruct (lock s) eqn:El; cbn -[he_send] in *; try lia.
+        + pose proof (Hs ACLock) as X. scbn X. rewrite E, El in X. discriminate.
+        + (* leave holds the lock: Close is in LeaveGroup *)
+          destruct (kc s) eqn:Ek; cbn -[he_send] in *; try lia.
+          pose proof (Hs (AKLeaveNet false 0)) as X. scbn X. rewrite Ek in X. discriminate.
+      - pose proof (Hs (ACRefresh false)) as X. scbn X. rewrite E in X. discriminate.
+      - pose proof (Hs (ACJoin (JFail false 2))) as X. scbn X. rewrite E in X. discriminate.
+      - pose proof (Hs ACBackClosed) as X. scbn X. rewrite E, P in X. discriminate.
+      - pose proof (Hs (ACSetup SFailEarly)) as X. scbn X. rewrite E in X. discriminate.
+      - (* CWaitCtx *) destruct (ctx_done s) eqn:Ec.
+        + pose proof (Hs ACCtxDone) as X. scbn X. rewrite E, Ec in X. discriminate.
+        + destruct A8 as [A8|A8]; rewrite A8 in *; cbn -[he_send] in *; lia.
+      - pose proof (Hs ACRel1) as X. scbn X. rewrite E in X. discriminate.
+      - pose proof (Hs ACRelWait) as X. scbn X. rewrite E in X.
+        assert (W : wg s = 0) by lia. rewrite W in X. discriminate.
+      - pose proof (Hs (ACRel2 false)) as X. scbn X. rewrite E in X. destruct (rel_once s); discriminate.
+      - destruct HE as [HE|HE]; apply HE.
+        + pose proof (Hs (ACRelHe HBuf)) as X. cbn -[he_send Nat.ltb Nat.leb Nat.eqb] in X. rewrite E in X. destruct (he_send c s HBuf); [discriminate|reflexivity].
+        + pose proof (Hs (ACRelHe HDrop)) as X. cbn -[he_send Nat.ltb Nat.leb Nat.eqb] in X. rewrite E in X. destruct (he_send c s HDrop); [discriminate|reflexivity].
+      - pose proof (Hs ACRel3) as X. scbn X. rewrite E in X. discriminate.
+      - (* CRel4: the heartbeat loop sees hbDying *)
+        assert (D : hb_dying s = true) by (destruct (hb_dying s); cbn -[he_send] in *; auto; lia).
+        destruct (hb s) eqn:Eh; cbn -[he_send] in *; try lia.
+        + pose proof (Hs (AHNet HbOk)) as X. scbn X. rewrite Eh in X. discriminate.
+        + pose proof (Hs AHBackDying) as X. scbn X. rewrite Eh, D in X. discriminate.
+        + pose proof (Hs AHDying) as X. scbn X. rewrite Eh, D in X. discriminate.
+        + destruct HE as [HE|HE]; apply HE.
+          * pose proof (Hs (AHHe HBuf)) as X. cbn -[he_send Nat.ltb Nat.leb Nat.eqb] in X. rewrite Eh in X. destruct (he_send c s HBuf); [discriminate|reflexivity].
+          * pose proof (Hs (AHHe HDrop)) as X. cbn -[he_send Nat.ltb Nat.leb Nat.eqb] in X. rewrite Eh in X. destruct (he_send c s HDrop); [discriminate|reflexivity].
+        + pose proof (Hs AHExit) as X. scbn X. rewrite Eh in X. discriminate.
+        + (* HDone: hbDead is closed *)
+          pose proof (Hs ACRel4) as X. scbn X. rewrite E in X.
+          assert (D2 : hb_dead s = true) by (destruct (hb_dead s); cbn -[he_send] in *; auto; lia). rewrite D2 in X. discriminate.
+      - pose proof (Hs (ACRet r)) as X. scbn X. rewrite E, Nat.eqb_refl in X. discriminate. }
+    rewrite B in *; cbn -[he_send] in *.
+    (* the caller of Close is back *)
+    assert (C : kc s = KIdle).
+    { destruct (kc s) eqn:E; auto; exfalso; cbn -[he_send] in *.
+      - pose proof (Hs AKCloseCh) as X. scbn X. rewrite E in X. discriminate.
+      - destruct (lock s) eqn:El; cbn -[he_send] in *; try lia.
+        pose proof (Hs AKLeaveLock) as X. scbn X. rewrite E, El in X. destruct (member s); discriminate.
+      - pose proof (Hs (AKLeaveNet false 0)) as X. scbn X. rewrite E in X. discriminate.
+      - destruct (ke s) eqn:Ee; cbn -[he_send] in *; try lia.
+        pose proof (Hs AKSpawn) as X. scbn X. rewrite E, Ee in X. discriminate.
+      - (* KDrain *)
+        destruct (len (errs s)) eqn:El.
+        + destruct (closed (errs s)) eqn:Ec.
+          * pose proof (Hs AKDrainEnd) as X. scbn X. rewrite E, Ec, El in X. discriminate.
+          * destruct (ke s) eqn:Ee; cbn -[he_send] in *; try lia.
+            pose proof (Hs AECloseErrs) as X. scbn X. rewrite Ee in X.
+            unfold sync_checked in X. rewrite A1, A2, B in X. cbn in X.
+            destruct (hb s) eqn:Eh; cbn -[he_send] in *; try lia; rewrite andb_false_r in X; discriminate.
+        + pose proof (Hs AKDrainRecv) as X. scbn X. rewrite E, El in X. discriminate.
+      - pose proof (Hs (AKClient 1)) as X. scbn X. rewrite E in X.
+        assert (R1 : (r <=? 1) = true) by (apply Nat.leb_le; lia). rewrite R1 in X. discriminate.
+      - pose proof (Hs (AKRet r)) as X. scbn X. rewrite E, Nat.eqb_refl in X. discriminate. }
+    rewrite C in *; cbn -[he_send] in *.
+    unfold final, session_over. rewrite A2, A3, A4, A5, A6, A7, B, C.
+    assert (Cl : client_closed s = true) by (destruct (client_closed s); cbn -[he_send] in *; auto; rewrite P in *; cbn -[he_send] in *; lia).
+    rewrite Cl in *; cbn -[he_send] in *.
+    assert (Ke : ke s = EDone) by (destruct (ke s); cbn -[he_send] in *; auto; lia).
+    rewrite Ke in *; cbn -[he_send] in *.
+    assert (Ec : closed (errs s) = true) by (destruct (closed (errs s)); cbn -[he_send] in *; auto; lia).
+    assert (Lk : lock s = LNone) by (destruct (lock s); cbn -[he_send] in *; auto; lia).
+    assert (Hb : hb s = HNone \/ hb s = HDone) by (destruct (hb s); cbn -[he_send] in *; auto; lia).
+    repeat split; auto.
+  Qed.
 End GrpT.
